@@ -22,7 +22,7 @@ from vf.runner import excluded, ok, trivial, violation
 
 ID = "C17"
 LEVEL = "exploration"
-BUDGET = {"quick": 150, "thorough": 4000}
+BUDGET = {"quick": 150, "thorough": 20000}
 RULE = (
     "case = (matrix triplets, kind, format, rhs, trans, initial-guess kind, solver); distinct = "
     "SHA-256 of the case; non-trivial = n >= 3 and (transposed solve, an initial guess, a non-CSC "
